@@ -53,7 +53,8 @@ SVCS = ['blockfrost', 'ogmios_v5', 'ogmios_v6', 'kupo', 'cli']
 COQ_SVC = {'blockfrost': 'Blockfrost', 'ogmios_v5': 'OgmiosV5', 'ogmios_v6': 'OgmiosV6', 'kupo': 'Kupo', 'cli': 'Cli'}
 REGION = 'script_unsupported'
 
-HEADER0 = '''From Coq Require Import NArith ZArith Ascii String List Bool.
+HEADER0 = '''From Coq Require Import Uint63.
+From Coq Require Import NArith ZArith Ascii String List Bool.
 From Coq Require Import Init.Byte.
 From PyC Require Import Base Cbor Dict Value Json Adapters AdaptersOracle.
 Import ListNotations.
@@ -285,8 +286,13 @@ def in_region(case):
 
 # ---------------------------------------------------------------- Coq literals
 def hxs(h):
-    """bytes literal as Init.Byte constructors (string and number notations cost ~50 us per character in coqc)"""
-    return '[' + ';'.join('x' + h[i:i + 2] for i in range(0, len(h), 2)) + ']'
+    """bytes literal: big-endian groups of 7 bytes as primitive integers (string / constructor-list literals cost
+    coqc 40-50 us per character; primitive integers are parsed natively)"""
+    b = bytes.fromhex(h)
+    if not b:
+        return '[]'
+    groups = [str(int.from_bytes(b[i:i + 7], 'big')) for i in range(0, len(b), 7)]
+    return f'(ub {len(b)} [' + ';'.join(groups) + ']%uint63)'
 
 
 def r_addr(a):
@@ -337,8 +343,13 @@ def r_datum(d):
 
 def r_utxo(u):
     assets = clist([cpair(hxs(p), clist([cpair(hxs(n), cn(q)) for n, q in names])) for p, names in u['assets']])
-    flat = clist([f'({hxs(p)}, {hxs(n)}, {cn(q)})' for p, n, q in u['flat']])
-    return (f'(mkU {hxs(u["txid"])} {cn(u["index"])} {cn(u["lovelace"])} {assets} {flat} {r_datum(u["datum"])} '
+    grouped = [[p, n, q] for p, names in u['assets'] for n, q in names]
+    idx = []
+    for e in u['flat']:                      # the listing order as indices into the grouped listing
+        idx.append(grouped.index(e))
+    assert sorted(idx) == list(range(len(grouped)))
+    flat = '(perm_flat a ' + clist([f'{i}%nat' for i in idx]) + ')'
+    return (f'(let a := {assets} in mkU {hxs(u["txid"])} {cn(u["index"])} {cn(u["lovelace"])} a {flat} {r_datum(u["datum"])} '
             f'{r_script(u["script"])} {hxs(u["script_hash"])} {cbool(u["wrapped"])})')
 
 
@@ -429,26 +440,30 @@ def r_impl(res):
 
 
 # ---------------------------------------------------------------- pass 1: Coq renders the documents
-_TOK = re.compile(r'"(""|.)"%byte|(\[)|(\])')
+_TOK = re.compile(r'(\d+)%uint63|(\[)|(\])')
 
 
-def parse_coq_bytes(out):
-    """Parse the printed value of type list (list (list byte)) (printed as "c"%byte) into lists of str."""
+def parse_coq_packed(out):
+    """Parse the printed value of type list (list (list int)): per case [key; text; key; text; ...], every string as
+    [length; 7-byte big-endian groups...] of primitive integers."""
     start = out.index('= ') + 2
     end = out.rindex(': list (list')
     cases, docs, cur, depth = [], None, None, 0
     for m in _TOK.finditer(out, start, end):
         if m.group(1) is not None:
-            cur.append(ord(m.group(1)[0]))
+            cur.append(int(m.group(1)))
         elif m.group(2):
             depth += 1
             if depth == 2:
                 docs = []
             elif depth == 3:
-                cur = bytearray()
+                cur = []
         else:
             if depth == 3:
-                docs.append(cur.decode('ascii'))
+                n, groups = cur[0], cur[1:]
+                assert len(groups) == (n + 6) // 7, (n, len(groups))
+                b = b''.join(g.to_bytes(7 if (i + 1) * 7 <= n else n - i * 7, 'big') for i, g in enumerate(groups))
+                docs.append(b.decode('ascii'))
             elif depth == 2:
                 cases.append(docs)
             depth -= 1
@@ -456,7 +471,7 @@ def parse_coq_bytes(out):
     return cases
 
 
-SHARD = 60
+SHARD = 96
 
 
 def coq_render(cases):
@@ -485,7 +500,7 @@ def coq_render(cases):
         out, err = pr.communicate()
         if pr.returncode != 0:
             raise RuntimeError('render pass failed: ' + (out + err)[-2000:])
-        docs = parse_coq_bytes(out)
+        docs = parse_coq_packed(out)
         assert len(docs) == n, (len(docs), n)
         for j, dl in enumerate(docs):
             assert len(dl) % 2 == 0
